@@ -50,7 +50,10 @@ class Packet:
                                                   separators=(',', ':'))
             elif self.data is not None:
                 encoded_packet += str(self.data)
-        self.encode_cache = encoded_packet
+        if not self.binary:
+            # the encoding of a binary packet depends on the channel kind, so
+            # only channel-independent (text) encodings are cached
+            self.encode_cache = encoded_packet
         return encoded_packet
 
     def decode(self, encoded_packet):
